@@ -117,8 +117,8 @@ func cmdRun(args []string) int {
 	rep.Samples = nil
 	out, _ := json.MarshalIndent(rep, "", " ")
 	fmt.Println(string(out))
-	fmt.Fprintf(os.Stderr, "paths=%d completed=%d infeasible=%d queries=%d sat=%d unsat=%d unknown=%d errors=%d fallbacks=%d solver_s=%.2f wall=%.1f\n",
+	fmt.Fprintf(os.Stderr, "paths=%d completed=%d infeasible=%d queries=%d sat=%d unsat=%d unknown=%d errors=%d fallbacks=%d badmodels=%d solver_s=%.2f wall=%.1f\n",
 		rep.Paths, rep.Completed, rep.Infeasible,
-		gStats.Queries, gStats.SatN, gStats.UnsatN, gStats.UnknownN, gStats.Errors, gStats.Fallbacks, float64(gStats.Nanos)/1e9, rep.Wall)
+		gStats.Queries, gStats.SatN, gStats.UnsatN, gStats.UnknownN, gStats.Errors, gStats.Fallbacks, gStats.BadModels, float64(gStats.Nanos)/1e9, rep.Wall)
 	return 0
 }
